@@ -32,7 +32,7 @@ RULE = (
 def script_strategy():
     from hypothesis import strategies as st
 
-    op = st.one_of(st.just(["random"]), st.just(["time"]), st.just(["uuid"]), st.tuples(st.just("task"), st.integers(0, 2)).map(list))
+    op = st.one_of(st.just(["random"]), st.just(["time"]), st.just(["uuid"]), st.just(["uuid"]), st.tuples(st.just("task"), st.integers(0, 2)).map(list), st.just(["sub"]))
     return st.lists(op, min_size=1, max_size=6)
 
 
@@ -45,6 +45,7 @@ class World:
         self.child_reg = child_reg
         self.app = apps.make_app(kind, app_id=app_id, db=db, cached_status_time=0.0)
         self.task = self.app.task(tasks.wfprog, max_retries=12)
+        self.sub = self.app.task(tasks.wfsub, max_retries=12, force_new_workflow=True)
         # optionally the sub-task collapses duplicate registrations (a second launch may be routed onto a pending invocation)
         self.child = self.app.task(tasks.wfchild, registration_concurrency=CC.TASK) if child_reg else self.app.task(tasks.wfchild)
         tasks.HOOKS["app"] = self.app
@@ -65,6 +66,7 @@ class World:
         Pynenc._clear_instances()
         w.app = Pynenc(config_values=dict(self.app.config_values))
         w.task = w.app.task(tasks.wfprog, max_retries=12)
+        w.sub = w.app.task(tasks.wfsub, max_retries=12, force_new_workflow=True)
         w.child = w.app.task(tasks.wfchild, registration_concurrency=CC.TASK) if self.child_reg else w.app.task(tasks.wfchild)
         tasks.HOOKS["app"] = w.app
         context.set_current_app(w.app)
@@ -116,7 +118,13 @@ def run_children(world: World) -> None:
 
     app = world.app
     K = apps.rctx("K1")
-    for cid in list(app.orchestrator.get_task_invocation_ids(world.child.task_id)):
+    from pynenc import context
+
+    tasks.HOOKS["app"] = app
+    context.set_current_app(app)
+    pending = list(app.orchestrator.get_task_invocation_ids(world.sub.task_id)) + list(app.orchestrator.get_task_invocation_ids(world.child.task_id))
+    pending += [c for c in app.orchestrator.get_task_invocation_ids(world.child.task_id) if c not in pending]
+    for cid in pending:
         if app.orchestrator.get_invocation_status(cid) == S.REGISTERED:
             app.orchestrator.set_invocation_status(cid, S.PENDING, K)
             try:
@@ -145,7 +153,12 @@ def judge(scripts: list[Any], inv_ids: list[str], worlds: list[World]) -> list[t
                     kind = a[0]
                     probs.append((f"replay-differs:{kind}", f"workflow #{w}: operation {n} ({kind}) gave {b[-1]!r} on attempt {e['attempt']} but {a[-1]!r} on attempt 1"))
                     break
-        kids = {v[2] for e in entries for v in e["values"] if v[0] == "task"}
+        kids = {v[2] for e in entries for v in e["values"] if v[0] == "task"} | {v[1] for e in entries for v in e["values"] if v[0] == "sub"}
+        subs = {}
+        for e in entries:
+            subs.setdefault(e["attempt"], [v[1] for v in e["values"] if v[0] == "sub"])
+        if len({tuple(x) for x in subs.values() if x} ) > 1:
+            probs.append(("subtask-launched-twice", f"workflow #{w}: the sub-workflow launch returned different invocations over the attempts"))
         all_children[iid] = kids
         # exactly one child per identical call in this workflow
         per_call: dict[Any, set[str]] = {}
@@ -165,6 +178,21 @@ def judge(scripts: list[Any], inv_ids: list[str], worlds: list[World]) -> list[t
         extra = {i for i in stored if i not in kids}
         if extra:
             probs.append(("subtask-launched-twice", f"workflow #{w}: {len(extra)} child invocation(s) exist that no attempt got back from execute_task"))
+    # every logged workflow (sub-workflows included) has values of its own
+    by_wf: dict[str, dict[str, set]] = {}
+    for e in tasks.WF_LOG:
+        d = by_wf.setdefault(e["wf"], {"uuid": set(), "random": set(), "task": set()})
+        for v in e["values"]:
+            if v[0] in ("uuid", "random"):
+                d[v[0]].add(v[1])
+            elif v[0] == "task" and not worlds[0].child_reg:
+                d["task"].add(v[2])
+    wfs = sorted(by_wf)
+    for i in range(len(wfs)):
+        for j in range(i + 1, len(wfs)):
+            for what in ("uuid", "random", "task"):
+                if by_wf[wfs[i]][what] & by_wf[wfs[j]][what]:
+                    probs.append((f"workflows-share-{'child' if what == 'task' else what}", f"two workflows (ids {wfs[i][:8]}, {wfs[j][:8]}; a sub-workflow counts as one) produced the same deterministic {what}"))
     # different workflows never share children or uuids
     ids = list(all_children)
     for i in range(len(ids)):
